@@ -1,6 +1,6 @@
 SPECIFICATION SpecLegal
 CONSTANT Cfg <- MCCfg42
-CONSTANT MinDem = 2
+CONSTANT MinDem = 1
 CONSTANT MaxDem = 2
 INVARIANT FeasibleAlways
 INVARIANT CompletionIsFullSolution
